@@ -215,7 +215,20 @@ class FileProxy:
 
     def close(self):
         if not self._f.closed:
-            emit('close-w' if self._w else 'close-r', self._p, {'mode': self._m})
+            try:
+                emit('close-w' if self._w else 'close-r', self._p, {'mode': self._m})
+            except InjectedIOError:
+                # a close() whose write-back fails: what was still buffered is lost (it must not reach the file later, when the
+                # real object is finalised), the descriptor is closed, and the error is reported to the caller
+                if self._w:
+                    try:
+                        devnull = _REAL['os.open'](os.devnull, os.O_WRONLY)
+                        os.dup2(devnull, self._f.fileno())
+                        _REAL['os.close'](devnull)
+                        self._f.close()
+                    except OSError:
+                        pass
+                raise
         return self._f.close()
 
     def __enter__(self):
